@@ -166,8 +166,9 @@ impl CsdV1 {
 
     /// Returns the card capacity in 512-byte blocks
     pub fn card_capacity_blocks(&self) -> u32 {
-        let multiplier = self.device_size_multiplier() + self.read_block_length() - 7;
-        (self.device_size() + 1) << multiplier
+        // A valid register never gives more than 2^23 blocks, but the register
+        // comes from the card, so don't trust the field values
+        (self.card_capacity_bytes() / 512) as u32
     }
 }
 
@@ -209,7 +210,9 @@ impl CsdV2 {
 
     /// Returns the card capacity in 512-byte blocks
     pub fn card_capacity_blocks(&self) -> u32 {
-        (self.device_size() + 1) * 1024
+        // The largest device size would be exactly 2^32 blocks, which we can't
+        // represent (or address)
+        (self.device_size() + 1).saturating_mul(1024)
     }
 }
 
